@@ -26,10 +26,11 @@ CHECK_DEADLOCK FALSE
 """
 
 
-def consts(maxblocks, maxgpus, grid, mins="{0, 2000}"):
-    return {"MaxBlocks": maxblocks, "MaxGpus": maxgpus, "TensorSizes": "{4000, 10000}", "Kv": 8192, "GQA": 2,
-            "FreeGrid": vf.tla_set(grid), "Mins": mins, "Overheads": "{0, 5000}", "Outs": "{0, 3000}",
-            "Gzos": "{0, 3500}"}
+def consts(maxblocks, maxgpus, grid, mins="{0, 2000}", tensors="{4000, 10000}", overheads="{0, 5000}", outs="{0, 3000}",
+           gzos="{0, 3500}"):
+    return {"MaxBlocks": maxblocks, "MaxGpus": maxgpus, "TensorSizes": tensors, "Kv": 8192, "GQA": 2,
+            "FreeGrid": vf.tla_set(grid), "Mins": mins, "Overheads": overheads, "Outs": outs,
+            "Gzos": gzos}
 
 
 def run(tier="quick", seed=1, replay=None):
@@ -59,8 +60,15 @@ def run(tier="quick", seed=1, replay=None):
             cov["bounds"] = (f"blocks <= 2 with tensor sizes {{4000,10000}}, 1-2 GPUs with free memory on a grid of "
                              f"{len(grid)} values x minimum {{0,2000}}, overhead {{0,5000}}, output layer {{absent,3000}}, "
                              "projector {0,3500}, num_gpu {-1,0,1,blocks,blocks+1,999}")
+            # three GPUs and a projector larger than a layer: the projector must be charged to a GPU that was admitted with it
+            cfg3 = vf.write_cfg(wd, "MC_MemEstimate3.cfg", consts(2, 3, [0, 24000, 48000, 72000, 96000], "{0}", "{10000}", "{0}", "{3000}", "{0, 30000}"), MC_BODY)
+            vals3, r3 = vf.gen_exhaustive("MemEstimate", cfg3, wd, timeout=3000)
+            vals += vals3
+            cov["states"] += r3["distinct"]
+            cov["transitions"] += r3["generated"]
+            cov["bounds"] += "; 1-3 GPUs on a 5-value grid with a 30000-byte projector and 18192-byte layers"
             fine = [x + d for x in range(0, 120001, 6000) for d in (0, 1, 4000)]
-            cfg = vf.write_cfg(wd, "Sim_MemEstimate.cfg", consts(4, 4, fine, "{0, 2000, 457}"), GEN_BODY)
+            cfg = vf.write_cfg(wd, "Sim_MemEstimate.cfg", consts(4, 4, fine, "{0, 2000, 457}", gzos="{0, 3500, 30000}"), GEN_BODY)
             sims, _ = vf.gen_simulate("MemEstimate", cfg, wd, num=50 if quick else 3000, depth=6, seed=seed)
             cases = vf.dedupe(vals + sims)
             for i, c in enumerate(cases):
